@@ -289,8 +289,109 @@ fn build<T: TxLike>(ctx: &mut Ctx, mk: &dyn Fn(Vec<Input>, Vec<Witness>) -> T, c
     }
 }
 
+// ------------------------------------------------------------------ in-memory re-check of transaction OBJECTS
+/// An accepted transaction object that carries metadata (after `finalize`, or after `into_checked` + `into()`) is
+/// changed through the public field mutators WITHOUT re-signing, then goes through `into_checked_basic` +
+/// `check_signatures` (and `into_checked`) again. The mutators do not invalidate the cached id; the checked entry must.
+fn recheck(ctx: &mut Ctx) {
+    use fuel_tx::field::{Outputs, Policies as PoliciesField, ReceiptsRoot, Script as ScriptField, ScriptData, ScriptGasLimit};
+    use fuel_tx::{ConsensusParameters, Finalizable, TransactionBuilder};
+    use fuel_vm::checked_transaction::{CheckError, IntoChecked};
+    use fuel_tx::policies::PolicyType;
+    let cp = ConsensusParameters::standard();
+    let chain = cp.chain_id();
+    let base = *cp.base_asset_id();
+    let other_asset = AssetId::new(ctx.rng.arr32());
+    let mut b = TransactionBuilder::script(vec![0x24, 0x04, 0, 0], ctx.rng.bytes(8));
+    b.with_params(cp.clone());
+    b.script_gas_limit(1000 + ctx.rng.below(1000)).max_fee_limit(0);
+    let nkeys = 1 + ctx.rng.below(2) as usize;
+    let keys: Vec<SecretKey> = (0..nkeys).map(|_| key(ctx)).collect();
+    let nin = 1 + ctx.rng.below(3) as usize;
+    for k in 0..nin {
+        let sk = keys[k % nkeys];
+        let asset = if k == 0 { base } else { *ctx.rng.pick(&[base, other_asset]) };
+        if ctx.rng.chance(1, 4) { b.add_unsigned_message_input(sk, Address::new(ctx.rng.arr32()), Nonce::new(ctx.rng.arr32()), 1_000_000, vec![]); }
+        else { b.add_unsigned_coin_input(sk, utxo(ctx), 1_000_000 + ctx.rng.below(1000), asset, txp(ctx)); }
+    }
+    b.add_output(Output::coin(Address::new(ctx.rng.arr32()), 1 + ctx.rng.below(1000), base));
+    b.add_output(Output::change(Address::new(ctx.rng.arr32()), 0, base));
+    if ctx.rng.chance(1, 2) { b.add_output(Output::variable(Address::zeroed(), 0, AssetId::zeroed())); }
+    let tx0: Script = b.finalize();
+    // flow A: the finalized object (metadata from the builder); flow B: fully checked once, taken back out
+    let flow_b = ctx.rng.chance(1, 2);
+    let obj: Script = if flow_b {
+        match tx0.clone().into_checked(0u32.into(), &cp) {
+            Ok(c) => { let (t, _m): (Script, _) = c.into(); t }
+            Err(e) => { ctx.oracle_fail("honest-transaction-rejected", &format!("recheck tx={}", hex(&tx0.to_bytes())), &format!("{e:?}")); return; }
+        }
+    } else { tx0.clone() };
+    ctx.count(if flow_b { "recheck.flow.checked-then-into" } else { "recheck.flow.finalized" });
+    if !obj.is_computed() { ctx.count("recheck.object-without-metadata"); }
+    let id0 = sha_id(&chain, &signed_bytes(&obj));
+    for round in 0..5u64 {
+        let mut t = obj.clone();
+        let kind = if round == 0 { 0 } else { 1 + ctx.rng.below(13) };
+        let i = ctx.rng.below(t.inputs().len() as u64) as usize;
+        let what = match kind {
+            0 => "unchanged",
+            1 => { if let Output::Coin { to, .. } = &mut t.outputs_mut()[0] { *to = Address::new(ctx.rng.arr32()); } "output-coin-to" }
+            2 => { if let Output::Coin { amount, .. } = &mut t.outputs_mut()[0] { *amount += 1; } "output-coin-amount" }
+            3 => { if let Output::Change { to, .. } = &mut t.outputs_mut()[1] { *to = Address::new(ctx.rng.arr32()); } "output-change-to" }
+            4 => { match &mut t.inputs_mut()[i] { Input::CoinSigned(c) => c.amount -= 1, Input::MessageCoinSigned(m) => m.amount -= 1, _ => {} } "input-amount" }
+            5 => { match &mut t.inputs_mut()[i] { Input::CoinSigned(c) => c.utxo_id = utxo(ctx), Input::MessageCoinSigned(m) => m.nonce = Nonce::new(ctx.rng.arr32()), _ => {} } "input-utxo-or-nonce" }
+            6 => { t.script_data_mut().push(7); "script-data" }
+            7 => { *t.script_mut() = vec![0x24, 0x04, 0, 0, 0x24, 0x04, 0, 0]; "script" }
+            8 => { *t.script_gas_limit_mut() += 1; "script-gas-limit" }
+            9 => { t.policies_mut().set(PolicyType::Tip, Some(ctx.rng.below(5))); "policy-tip" }
+            10 => { t.policies_mut().set(PolicyType::Maturity, Some(0)); "policy-maturity" }
+            11 => { let o = t.outputs()[0]; t.outputs_mut().push(o); "output-added" }
+            // malleable content: the id must not change, the object must still be accepted
+            12 => { *t.receipts_root_mut() = b32(ctx); "malleable-receipts-root" }
+            _ => { match &mut t.inputs_mut()[i] { Input::CoinSigned(c) => c.tx_pointer = txp(ctx), _ => {} }
+                   if let Output::Change { amount, .. } = &mut t.outputs_mut()[1] { *amount = ctx.rng.word(); } "malleable-tx-pointer-change-amount" }
+        };
+        ctx.count(&format!("recheck.{what}"));
+        let signed = signed_bytes(&t);
+        let id_now = sha_id(&chain, &signed);
+        let content_changed = id_now != id0;
+        let cache_state = if !t.is_computed() { "n" } else if content_changed { "s" } else { "f" };
+        let desc = format!("recheck flow={} mutation={what} object-bytes={}", if flow_b { "checked-then-into" } else { "finalized" }, hex(&t.to_bytes()));
+        let basic = match ctx.guard(|| t.clone().into_checked_basic(0u32.into(), &cp)) { Ok(r) => r, Err(m) => { ctx.oracle_fail("panic-into_checked_basic", &desc, &m); continue; } };
+        let checked = match basic {
+            Err(e) => { ctx.count(&format!("recheck.basic-rejected.{}", format!("{e:?}").chars().filter(|c| c.is_alphanumeric()).take(40).collect::<String>())); continue; }
+            Ok(c) => c,
+        };
+        if *checked.id() != id_now {
+            ctx.oracle_fail("checked-id-is-not-the-id-of-the-content", &desc, &format!("Checked::id() = {}, sha256(chain ‖ prepared bytes) = {}", hex(checked.id().as_ref()), hex(&id_now)));
+        }
+        let id_tag = if *checked.id() == id_now { "cur" } else { "stale" };
+        let res = checked.check_signatures(&chain);
+        let out = match &res { Ok(_) => format!("ok id={id_tag}"), Err(CheckError::Validity(e)) => err_name(e), Err(e) => format!("other:{e:?}").chars().take(30).collect() };
+        // the model's tables, computed over the id of the CURRENT content
+        let idb = Bytes32::new(id_now);
+        let wits: Vec<String> = t.witnesses().iter().enumerate().map(|(j, w)| match w.recover_witness(&idb, j) { Ok(a) => hex(a.as_ref()), Err(_) => "x".into() }).collect();
+        let ins: Vec<String> = t.inputs().iter().map(|i| match i.witness_index() { Some(w) => format!("s,{},{}", hex(i.input_owner().unwrap().as_ref()), w), None => "c".into() }).collect();
+        ctx.emit(&format!("chk {cache_state} W {} I {}", wits.join(" "), ins.join(" ")), &out);
+        ctx.distinct(&t.to_bytes());
+        if res.is_ok() && content_changed {
+            ctx.oracle_fail("recheck-accepts-changed-signed-content", &desc, &format!("signed content changed through the field mutators without re-signing ({what}), yet into_checked_basic + check_signatures accept it"));
+        }
+        if res.is_err() && !content_changed {
+            ctx.oracle_fail("recheck-rejects-unchanged-signed-content", &desc, &format!("{what}: only malleable content (or nothing) changed"));
+        }
+        // the full entry point as well
+        let full = ctx.guard(|| t.clone().into_checked(0u32.into(), &cp));
+        if let Ok(Ok(c)) = &full {
+            if content_changed { ctx.oracle_fail("recheck-accepts-changed-signed-content", &desc, "into_checked accepts it"); }
+            if *c.id() != id_now { ctx.oracle_fail("checked-id-is-not-the-id-of-the-content", &desc, "into_checked"); }
+        }
+    }
+}
+
 pub fn run(ctx: &mut Ctx) {
     if std::env::var("FV_DEBUG_PANIC").is_ok() { std::panic::set_hook(Box::new(|i| eprintln!("{i}"))); }
+    for _ in 0..ctx.n(60, 800) { recheck(ctx); }
     let n = ctx.n(220, 3000);
     for c in 0..n {
         let chain = ChainId::new(match c % 4 { 0 => 0, 1 => 1, 2 => u64::MAX, _ => ctx.rng.word() });
